@@ -19,6 +19,7 @@ import LinVerif.Lemmas.C20Reuse
 import LinVerif.Lemmas.C20PrevMachine
 import LinVerif.Lemmas.C20Walk
 import LinVerif.Lemmas.C20WireErr
+import LinVerif.Lemmas.C20Words
 import LinVerif.Model.Louds
 import LinVerif.Model.TrieBucket
 import LinVerif.Generated.C20
@@ -407,6 +408,20 @@ theorem like_dispatch_eq_filter_partial (eon step : Bool) {ts : List Node} (hts 
       filter_key_eq_lookup hd k]
     cases lookup k (ts.flatMap iter) <;> rfl
 
+/-- **a lookup does not depend on earlier lookups**: any sequence of `GetValue` calls on one bucket object
+answers every probe like the sorted union — the object has no state that a lookup writes (`BucketObj` = the
+fields of `model.TrieBucket`, tie `gen_bucket_no_lookup_state`) -/
+theorem lookup_session_eq_sorted_map_partial (eon : Bool) {ts : List Node} (bsz : Nat)
+    (hts : ∀ t ∈ ts, Built t) (hd : DistinctKeys (ts.flatMap iter))
+    (hff : eon = false → ∀ v, ([255], v) ∉ ts.flatMap iter) (probes : List Key) :
+    lookupSession eon ⟨ts, bsz⟩ probes = probes.map (fun k => lookup k (sortKVs (ts.flatMap iter))) := by
+  induction probes with
+  | nil => rfl
+  | cons k ks ih =>
+    simp only [lookupSession, getValueStep, List.map_cons]
+    rw [bucket_get_eq_lookup_partial eon hts hd hff k]
+    congr 1
+
 end Bucket
 
 /-! ### the serialised byte layout (Write / MarshalSize / UnmarshalBinary) -/
@@ -769,6 +784,73 @@ theorem louds_encoding_layout (t : Node) :
 
 end Layer2
 
+/-! ### layer 2b: the 64-bit word arithmetic under rank / select / DistanceToNextSetBit (round 10) -/
+section Words
+open LinVerif.Louds LinVerif.C20Words
+
+/-- bits_vector.go `DistanceToNextSetBit`, statement by statement over the words of the vector (in-word
+shift + `TrailingZeros64`, the `wordOff == numWords-1` return, the word loop, the unused-tail correction of
+the last word — which applies only when `numBits % 64 != 0`), computes the distance on the bit list: for
+EVERY vector, every position that is not the last bit, and every number of stale zero words of a re-used
+longer buffer. In particular at `numBits % 64 = 0` nothing is subtracted. -/
+theorem louds_distNextGo_eq_distNext (bs : List Bool) (extra pos : Nat) (h : pos + 1 < bs.length) :
+    distNextGo bs.length (toWords bs extra) pos = distNext bs pos := by
+  rw [distNextGo_eq bs extra pos h]
+  unfold distNext
+  rw [if_neg (by simp only [wordSize]; omega)]
+
+/-- `trie.nodeSize` over the words: the size of node n of ANY node-size list (every node but a one-label
+last node), whatever the total — including totals that are multiples of 64 with a last node wider than a word -/
+theorem louds_nodeSize_words (sizes : List Nat) (n extra : Nat) (hpos : ∀ s ∈ sizes, 1 ≤ s) (hn : n < sizes.length)
+    (hnotlast : (sizes.take n).sum + 1 < sizes.sum) :
+    distNextGo sizes.sum (toWords (loudsOfSizes sizes) extra) ((sizes.take n).sum) = sizes[n] := by
+  have hl := length_loudsOfSizes sizes
+  have := louds_distNextGo_eq_distNext (loudsOfSizes sizes) extra ((sizes.take n).sum) (by rw [hl]; exact hnotlast)
+  rw [hl] at this
+  rw [this]
+  exact distNext_loudsOfSizes sizes n hpos hn hnotlast
+
+/-- bits.go `popcountBlock` (full words + the last word shifted left by `63 - lastBits`) counts the set
+bits of the `nbits` bits from word `off` on -/
+theorem louds_popcountBlock_eq (bs : List Bool) (extra off nbits : Nat) (h1 : 1 ≤ nbits)
+    (h : 64 * off + nbits ≤ bs.length) :
+    popcountBlockGo (toWords bs extra) off nbits = popcount ((bs.drop (64 * off)).take nbits) :=
+  popcountBlockGo_eq bs extra off nbits h1 h
+
+/-- rank.go `rankVectorSparse.Rank` over the words (table entry + `popcountBlock` inside the 512-bit block)
+= `rank`, every vector and position -/
+theorem louds_rankWords_eq_rank (bs : List Bool) (extra pos : Nat) (h : pos < bs.length) :
+    rankWords (rankLut bs) (toWords bs extra) pos = rank bs pos := by
+  rw [rankWords_eq_rankGo _ bs extra pos h]
+  exact rankGo_eq_rank bs pos h
+
+/-- bits.go `selectInByteLut` as filled by `init()` through `selectInByte` / `findFirstSet`: every one of
+the 256 × 8 entries is the position of the (j+1)-th set bit of the byte, or 8 -/
+theorem select_byte_table_correct (b j : Nat) (hb : b < 256) (hj : j < 8) :
+    (selectInByteLut.getD b []).getD j 8 = selectByteSpec b j := by
+  rw [← selectInByte_eq_spec b j hb hj]
+  simp [selectInByteLut, List.getD_eq_getElem?_getD, List.getElem?_map, List.getElem?_range, hb, hj]
+
+/-- the byte-level skeleton of `select64Broadword` (running byte sums → `place` → `byteRank` → table) returns
+the position of the (k+1)-th set bit of the word, for every word given by its bytes and every k below its
+popcount. (`_partial`: that the uint64 SWAR arithmetic of `select64Broadword` — the three mask/shift/add
+steps, `* onesStep8`, the `geqKStep8` comparison — computes exactly these byte sums / place / byteRank is NOT
+proved; it is compared with the real `select64Broadword` and the amd64 `select64` on every bit-vector case.) -/
+theorem select64_bytes_eq_select_partial (bytes : List Nat) (k : Nat) (hb : ∀ b ∈ bytes, b < 256)
+    (hk : k < popcount (bytes.flatMap byteBits)) :
+    select64Bytes bytes k = select (bytes.flatMap byteBits) (k + 1) :=
+  select64Bytes_eq_select bytes k hb hk
+
+-- the boundary of seeded change c20-17: 128 bits, the last set bit at 62, 65 clear bits behind it
+set_option maxRecDepth 100000 in
+example : distNextGo 128 (toWords (true :: List.replicate 61 false ++ true :: List.replicate 65 false) 0) 62 = 66 := by
+  decide
+set_option maxRecDepth 100000 in
+example : distNext (true :: List.replicate 61 false ++ true :: List.replicate 65 false) 62 = 66 := by decide
+example : select64Bytes [0x11, 0x00, 0x80] 2 = 23 := by decide
+
+end Words
+
 /-! ### ties to the facts regenerated from /repo's source (`lvh extract`) -/
 section Ties
 open LinVerif.Louds
@@ -967,6 +1049,48 @@ theorem gen_reuse :
     Generated.C20.bitInitZeroRange = "v.bits" ∧ Generated.C20.selectInitRange = "v.bits" ∧
     Generated.C20.resetCalls = ["level.Reset", "append"] ∧
     Generated.C20.initWriteContextCalls = ["hasChildVec.init", "loudsVec.Init", "prefixVec.Init", "suffixVec.Init"] :=
+  ⟨rfl, rfl, rfl, rfl⟩
+
+/-- `model.TrieBucket` has exactly the fields `kvs`, `blockSize` (= `TrieBucket.BucketObj`): no memo of an
+earlier lookup, no retained probe slice -/
+theorem gen_bucket_no_lookup_state : Generated.C20.trieBucketFields = ["kvs", "blockSize"] := rfl
+
+/-- the body of `bitVector.DistanceToNextSetBit`, statement by statement, as `C20Words.distNextGo` mirrors it
+(early exit on `len(v.bits)`, in-word test, `wordOff == numWords-1` return, the word loop, and the
+unused-tail correction guarded by `v.numBits%64 != 0`), and `numWords()` as `C20Words.numWords` -/
+theorem gen_distNext_body :
+    Generated.C20.distNextStmts =
+      ["var distance uint32 = 1", "wordOff := (pos + 1) / wordSize", "bitsOff := (pos + 1) % wordSize",
+       "if wordOff >= uint32(len(v.bits)) {", "return 0", "}",
+       "testBits := v.bits[wordOff] >> bitsOff",
+       "if testBits > 0 {", "return distance + uint32(bits.TrailingZeros64(testBits))", "}",
+       "numWords := v.words",
+       "if wordOff == numWords-1 {", "return v.numBits - pos", "}",
+       "distance += wordSize - bitsOff",
+       "for ; wordOff < numWords-1; {", "wordOff++", "testBits = v.bits[wordOff]",
+       "if testBits > 0 {", "return distance + uint32(bits.TrailingZeros64(testBits))", "}",
+       "distance += wordSize", "}",
+       "if wordOff == numWords-1 && v.numBits%64 != 0 {", "distance -= wordSize - v.numBits%64", "}",
+       "return distance"] ∧
+    Generated.C20.numWordsStmts =
+      ["wordSz := v.numBits / wordSize", "if v.numBits%wordSize != 0 {", "wordSz++", "}", "return wordSz"] :=
+  ⟨rfl, rfl⟩
+
+/-- the bodies of `popcountBlock`, `rankVectorSparse.Rank`, `selectInByte`, `findFirstSet` as
+`C20Words.popcountBlockGo` / `rankWords` / `selectInByte` / `findFirstSet` mirror them -/
+theorem gen_word_function_bodies :
+    Generated.C20.popcountBlockStmts =
+      ["if nbits == 0 {", "return 0", "}", "lastWord := (nbits - 1) / wordSize", "lastBits := (nbits - 1) % wordSize",
+       "var i, p uint32", "for i = 0; i < lastWord; i++ {", "p += uint32(bits.OnesCount64(bs[off+i]))", "}",
+       "last := bs[off+lastWord] << (wordSize - 1 - lastBits)", "return p + uint32(bits.OnesCount64(last))"] ∧
+    Generated.C20.rankStmts =
+      ["wordPreBlk := uint32(rankSparseBlockSize / wordSize)", "blockOff := pos / rankSparseBlockSize",
+       "bitsOff := pos % rankSparseBlockSize",
+       "return v.rankLut[blockOff] + popcountBlock(v.bits, blockOff*wordPreBlk, bitsOff+1)"] ∧
+    Generated.C20.selectInByteStmts =
+      ["r := 0", "for ; j != 0; j-- {", "s := findFirstSet(i)", "r += s", "i >>= s", "}", "if i == 0 {", "return 8", "}",
+       "return uint8(r + findFirstSet(i) - 1)"] ∧
+    Generated.C20.findFirstSetStmts = ["return bits.TrailingZeros64(uint64(x)) + 1"] :=
   ⟨rfl, rfl, rfl, rfl⟩
 
 end Ties
